@@ -14,8 +14,16 @@ import (
 var Mutations = map[string][]string{
 	"any": {"empty", "garbage", "zeros", "trunc25", "trunc50", "trunc75", "trunc-8", "double"},
 	"pl": {"pl-hugeseq", "pl-negdur", "pl-hugedur", "pl-nouri", "pl-swap", "pl-badrange", "pl-badmap", "pl-nover", "pl-longline",
-		"pl-targetneg", "pl-dupseg"},
-	"multi": {"pl-swap", "pl-nocodecs", "pl-nouri", "pl-badgroup", "pl-nobandwidth"},
+		"pl-targetneg", "pl-dupseg",
+		// a tag or an attribute the client relies on is missing (also in a RELOADED playlist, where only the first one was validated)
+		"pl-drop:EXT-X-SERVER-CONTROL", "pl-drop:EXT-X-PART-INF", "pl-drop:EXT-X-MAP", "pl-drop:EXT-X-TARGETDURATION",
+		"pl-drop:EXT-X-MEDIA-SEQUENCE", "pl-drop:EXT-X-PRELOAD-HINT", "pl-drop:EXT-X-PROGRAM-DATE-TIME", "pl-drop:EXT-X-VERSION",
+		"pl-drop:EXT-X-ENDLIST", "pl-drop:EXT-X-PLAYLIST-TYPE", "pl-drop:EXTINF", "pl-drop:EXT-X-PART:",
+		"pl-noattr:CAN-BLOCK-RELOAD", "pl-noattr:PART-HOLD-BACK", "pl-noattr:CAN-SKIP-UNTIL", "pl-noattr:URI", "pl-noattr:TYPE",
+		"pl-noattr:DURATION", "pl-noattr:PART-TARGET", "pl-noattr:BYTERANGE-START", "pl-noattr:BYTERANGE-LENGTH"},
+	"multi": {"pl-swap", "pl-nocodecs", "pl-nouri", "pl-badgroup", "pl-nobandwidth",
+		"pl-drop:EXT-X-MEDIA", "pl-drop:EXT-X-STREAM-INF", "pl-drop:EXT-X-INDEPENDENT-SEGMENTS", "pl-drop:EXT-X-VERSION",
+		"pl-noattr:URI", "pl-noattr:GROUP-ID", "pl-noattr:TYPE", "pl-noattr:NAME", "pl-noattr:CODECS", "pl-noattr:AUDIO"},
 	"init": {"init-unknown-extra", "init-unknown-all", "init-unknown-lead", "init-unknown-audio", "init-scale0", "init-scale0-aud",
 		"init-extra", "init-missing", "init-dupid", "init-many", "init-notracks"},
 	"seg-fmp4": {"seg-noleading", "seg-extratraf", "seg-emptytrun", "seg-hugedur", "seg-hugebase", "seg-zerodur", "seg-other",
@@ -68,6 +76,31 @@ func (r *runner) mutate(name, kind string, body []byte, j, id int) []byte {
 		return append(append([]byte(nil), body...), body...)
 	}
 	txt := string(body)
+	if strings.HasPrefix(name, "pl-drop:") {
+		tag := "#" + strings.TrimPrefix(name, "pl-drop:")
+		var out []string
+		for _, ln := range strings.Split(txt, "\n") {
+			if strings.HasPrefix(ln, tag) {
+				continue
+			}
+			out = append(out, ln)
+		}
+		return []byte(strings.Join(out, "\n"))
+	}
+	if strings.HasPrefix(name, "pl-noattr:") {
+		re := regexp.MustCompile(`(^|[:,])` + regexp.QuoteMeta(strings.TrimPrefix(name, "pl-noattr:")) + `=("[^"]*"|[^,\n]*)`)
+		var out []string
+		for _, ln := range strings.Split(txt, "\n") {
+			if strings.HasPrefix(ln, "#") {
+				ln = re.ReplaceAllString(ln, "$1")
+				ln = strings.Replace(ln, ":,", ":", 1)
+				ln = strings.Replace(ln, ",,", ",", -1)
+				ln = strings.TrimSuffix(ln, ",")
+			}
+			out = append(out, ln)
+		}
+		return []byte(strings.Join(out, "\n"))
+	}
 	switch name {
 	case "pl-hugeseq":
 		return []byte(reSeq.ReplaceAllString(txt, "#EXT-X-MEDIA-SEQUENCE:99999999999999999999999"))
